@@ -19,6 +19,8 @@ def cases(seed, tier):
     for (cls, Rc, Rx, Dy, Dx), t in ctor_grid(seed, "C10", tier):
         N = 3
         out.append(case_set_y(PROPERTY, cls, 1 if Rc == 1 else N, N, Dy, Dx, tag=t))
+    for (cls, Rc, Rx, Dy, Dx) in upd_grid(seed, "C10", tier):
+        out.append(case_set_y(PROPERTY, cls, 1 if Rc == 1 else 3, 3, Dy, Dx, tag="/upd"))
     for (Ru, N, Dy, Dx, Du) in [(1, 3, 2, 3, 2), (3, 3, 1, 2, 1)] + ([(1, 1, 3, 1, 2), (2, 2, 2, 2, 3)] if tier != "quick" else []):
         out.append(case_set_y_nn(Ru, N, Dy, Dx, Du))
     return seeded(out, seed)
